@@ -103,8 +103,18 @@ package migrator
 
 //@ func (*Migrator).loadSwampNameFromMeta(m, folderPath) (name, err)
 //@   opaque
-//@ func (*Migrator).loadV1Swamp(m, folderPath) (entries, raw, dup, err)
+// loadV1Swamp: chunk files are read in directory order and the record read LAST for a key wins (the
+// legacy Load overwrites its map entry in the same way); a chunk that cannot be read fails the whole load.
+//@ func (*Migrator).loadV1File(m, filePath) (entries, err)
 //@   opaque
+//@ func isV1DataFileName(name) (ok)
+//@   opaque
+//@ func (*Migrator).loadV1Swamp(m, folderPath) (entries, raw, dup, err)
+//@   property C23
+//@   overflow: assumed
+//@   modifies *
+//@   loop 1 invariant[last_record_of_a_key_wins] entryMap != nil && (rangeindex >= 0 ==> has(entryMap, fileEntries[rangeindex].Key) && sliceid(entryMap[fileEntries[rangeindex].Key].Data) == sliceid(fileEntries[rangeindex].Data) && len(entryMap[fileEntries[rangeindex].Key].Data) == len(fileEntries[rangeindex].Data))
+//@   ensures[unreadable_chunk_fails_the_load] calls("Migrator.loadV1File") > old(calls("Migrator.loadV1File")) && !isnil(lastret("Migrator.loadV1File", 1)) ==> err != nil && isnil(entries)
 //@ func (*Migrator).deleteV1Files(m, folderPath) (err)
 //@   opaque
 //@ func (*Migrator).recordFailure(m, path, errorMsg, phase)
